@@ -63,6 +63,8 @@ type VC struct {
 	summary  map[*ssa.Function]*fnSummary
 	lockComp string
 	entry    *Heap
+	recvStruct *StructVal
+	freshRefs  map[string]bool
 }
 
 type fnSummary struct {
@@ -118,6 +120,8 @@ func NewVC(w *World, fn *ssa.Function) *VC {
 	vc := &VC{w: w, top: fn, topKey: funcKey(fn), script: &Script{}, comps: map[string]compInfo{}, oblNames: map[string]int{},
 		tags: map[string]int{}, declared: map[string]bool{}, strLits: map[string]Term{}, notes: map[string]bool{},
 		summary: map[*ssa.Function]*fnSummary{}}
+	vc.script.defs = map[string]string{}
+	currentDefs = vc.script.defs
 	vc.registerComp(allocComp, compInfo{Sort: ArrSort(SInt, SBool), Depth: 1})
 	vc.base0 = vc.newBase(Term{})
 	a0 := vc.baseGet(vc.base0, allocComp)
@@ -410,6 +414,10 @@ func (vc *VC) storeValue(st *State, loc Loc, t SType, v Value) {
 // newRef allocates a fresh reference.
 func (vc *VC) newRef(st *State, hint string) Term {
 	r := vc.script.Declare(hint, SInt)
+	if vc.freshRefs == nil {
+		vc.freshRefs = map[string]bool{}
+	}
+	vc.freshRefs[r.S] = true
 	alloc := vc.allocOf(st.heap)
 	vc.script.Assume(Implies(st.pc, And(Gt(r, Zero), Not(Select(alloc, r)))))
 	vc.hset(st, allocComp, Store(alloc, r, True))
@@ -433,7 +441,7 @@ func (vc *VC) zeroGhosts(st *State, loc Loc, t SType) {
 	pre := typeKey(t.Go) + "."
 	for k, g := range vc.w.ghosts {
 		if strings.HasPrefix(k, pre) && !strings.Contains(k[len(pre):], ".") {
-			vc.storeValue(st, Loc{loc.Prefix + "." + k[len(pre):], loc.Idx}, g, vc.zeroValue(g))
+			vc.storeValue(st, Loc{vc.fieldComp(loc.Prefix, t, k[len(pre):]), loc.Idx}, g, vc.zeroValue(g))
 		}
 	}
 	if s, ok := structOf(t.Go); ok {
